@@ -30,6 +30,7 @@ import Nitime.Generated.SpecIdx
 import Nitime.Generated.SpecWrites
 import Nitime.Model.C04Sess
 import Nitime.Generated.AnalyzerFs
+import Nitime.Model.C04Block
 
 namespace Nitime.C04
 open Nitime.Num
@@ -468,6 +469,16 @@ def handleAnSess (args : List String) : String :=
 def handle (args : List String) : String :=
   match args with
   | "ansess" :: rest => handleAnSess rest
+  -- round 4 (L9): the one-sided assembly carried out in blocks of `b` bins on a supplied two-sided density / the rows
+  -- filled by ⌈M/rows⌉ blocks of `rows` rows (`Model/C04Block.lean`)
+  | ["blockfold", nfft, b, ps] =>
+    match nfft.toNat?, b.toNat?, parseFArray? ps with
+    | some N, some b, some p => "ok " ++ showFloatList (blockFoldList (fun v => 2.0 * v) N b loOffset (ffn p))
+    | _, _, _ => "bad-op"
+  | ["blockrows", m, rows] =>
+    match m.toNat?, rows.toNat? with
+    | some M, some rows => "ok " ++ ",".intercalate ((rowsFilled M rows (blocksCeil M rows)).map toString)
+    | _, _ => "bad-op"
   | ["periodogram", fs, nfft, sides, xs] =>
     match parseFloat? fs, nfft.toNat?, parseSig? xs with
     | some Fs, some N, some x =>
